@@ -196,6 +196,16 @@ def check(drv, pid, tier, seed):
         violation(drv, pid, dict(property=pid, seed=seed, tier=tier, count=count, case=g, kind='predicate', history=meta['traces'][g],
                                  property_predicates_violated_on_the_implementation=bad,
                                  explanation='the property\'s own predicates, evaluated by the harness on the observed behaviour of the real code, fail on this case'))
+    # findings the model mirrors (no mismatch arises): the harness replays their inputs on every run and says what it saw
+    obs = {o['id']: o for o in (extra.get('known_finding_observations') or [])}
+    for k in known:
+        if k['id'] in known_hit:
+            continue
+        o = obs.get(k['id'])
+        if o is not None and o.get('still_fails') is False:
+            print('(known finding %s did not show in this run: %s)' % (k['id'], o.get('detail')), flush=True)
+            continue
+        known_hit[k['id']] = k
     for k in known_hit.values():
         print('KNOWN-FINDING: property=%s %s' % (pid, k['what']), flush=True)
     if viol > reported:
@@ -222,7 +232,7 @@ def check(drv, pid, tier, seed):
                             traces_validated_against_impl=meta['cases'],
                             op_histogram=meta.get('op_histogram'), outcome_histogram=meta.get('outcome_histogram'),
                             type_histogram=meta.get('type_histogram'), length_histogram=meta.get('length_histogram'), extra=meta.get('extra'),
-                            hangs=meta.get('hangs', 0), mismatching_cases=len(mism),
+                            hangs=meta.get('hangs', 0), mismatching_cases=len(mism), known_findings_reported=sorted(known_hit),
                             params=info.get('genparams'), obligations_files=cfg['files'], coqchk=coqchk,
                             timings=dict(build_s=info.get('coq_make_s'), go_build_s=info.get('go_build_s'), gen_s=gen_s, coqc_cases_s=coq_s)),
               assumptions=TRUSTED_COMMON, wall_s=round(time.time() - t0, 1), violations=viol)
